@@ -19,7 +19,13 @@ T == <<
   [ref |-> 0,  pos |-> 11,  name |-> Name(220), mapq |-> 4, flag |-> 16, cigar |-> <<<<4, 1>>, <<0, 1>>>>,              seq |-> <<8, 4, 2>>,       qual |-> <<1, 1, 1>>,   tags |-> <<>>],
   \* a skip of more than 2^27 reference bases (the top bit of the 28-bit length field) and the largest length 2^28 - 1
   [ref |-> 0,  pos |-> 100, name |-> Name(2), mapq |-> 9,  flag |-> 0,  cigar |-> <<<<0, 2>>, <<3, 134217733>>, <<0, 1>>>>, seq |-> <<1, 2, 4>>,     qual |-> <<5, 6, 7>>,   tags |-> <<>>],
-  [ref |-> 1,  pos |-> 3,   name |-> Name(1), mapq |-> 2,  flag |-> 16, cigar |-> <<<<2, 268435455>>, <<0, 1>>>>,       seq |-> <<8>>,             qual |-> <<40>>,        tags |-> <<>>]
+  [ref |-> 1,  pos |-> 3,   name |-> Name(1), mapq |-> 2,  flag |-> 16, cigar |-> <<<<2, 268435455>>, <<0, 1>>>>,       seq |-> <<8>>,             qual |-> <<40>>,        tags |-> <<>>],
+  \* 300 CIGAR operations (the count needs the second byte of its 16-bit field): 150 x (1M 1I), 300 bases
+  [ref |-> 0,  pos |-> 20,  name |-> Name(2), mapq |-> 30, flag |-> 0,  cigar |-> [k \in 1..300 |-> <<(k + 1) % 2, 1>>],
+   seq |-> [k \in 1..300 |-> <<1, 2, 4, 8>>[(k % 4) + 1]], qual |-> [k \in 1..300 |-> k % 41], tags |-> <<>>],
+  \* a read of 65 537 bases (the length needs the upper half of its 32-bit field), odd length
+  [ref |-> 1,  pos |-> 1,   name |-> Name(3), mapq |-> 11, flag |-> 16, cigar |-> <<<<0, 65537>>>>,
+   seq |-> [k \in 1..65537 |-> <<1, 2, 4, 8, 15>>[(k % 5) + 1]], qual |-> [k \in 1..65537 |-> k % 41], tags |-> <<>>]
 >>
 Init == recs = <<>>
 Add == Len(recs) < MaxRecs /\ \E i \in Pick : recs' = Append(recs, T[i])
